@@ -8,11 +8,15 @@
 //! one deterministic case (or a small batch), runs the real crate on it and evaluates the
 //! property's oracle on what was observed.  The framework shards keys over worker threads.
 
+mod hostile;
 mod mon;
 mod props;
 mod refcrc;
 mod report;
 mod rng;
+mod rxspec;
+mod sender;
+mod train;
 mod util;
 mod wire;
 
